@@ -5,6 +5,7 @@ dtypes and for bool.
 -/
 import Mahotas.Proofs.C02
 import Mahotas.Proofs.C14
+import Mahotas.Proofs.C14Reg
 namespace Mahotas.C02
 open Mahotas Mahotas.C01
 
@@ -533,6 +534,40 @@ theorem hiClear_dilate_unsigned (dt : DT) (wf : dt.WF) (hlo : dt.lo = 0) (sup : 
 def ScatterGatherSym (shape : List Nat) (sup : List (List Int × Int)) : Prop :=
   ∀ i j, i < shapeSize shape → j < shapeSize shape →
     ((∃ kh ∈ sup, tgt shape i kh.1 = j) ↔ (∃ kh ∈ sup, tgt shape j kh.1 = i))
+
+/-- the offsets of the element are closed under "between 0 and a member" (coordinate-wise star-shaped,
+    centre included) and under negation -/
+structure SymStar (sup : List (List Int × Int)) : Prop where
+  star : ∀ kh ∈ sup, ∀ k', C01.between k' kh.1 = true → ∃ kh' ∈ sup, kh'.1 = k'
+  neg : ∀ kh ∈ sup, ∃ kh' ∈ sup, kh'.1 = negPos kh.1
+
+theorem sg_dir (shape : List Nat) (sup : List (List Int × Int)) (hs : ∀ d ∈ shape, 0 < d)
+    (hlen : ∀ kh ∈ sup, kh.1.length = shape.length) (hss : SymStar sup) (i j : Nat)
+    (hi : i < shapeSize shape) (hj : j < shapeSize shape) (h : ∃ kh ∈ sup, tgt shape i kh.1 = j) :
+    ∃ kh ∈ sup, tgt shape j kh.1 = i := by
+  obtain ⟨kh, hkh, ht⟩ := h
+  have hp := inside_unravelI shape i hi
+  have hq := inside_unravelI shape j hj
+  have hkl : kh.1.length = (unravelI shape i).length := by rw [hlen kh hkh, unravelI_length]
+  obtain ⟨k', hb, hc, hin⟩ := C14.clamp_between shape (unravelI shape i) kh.1 hp hkl
+  -- the clamped target is the j-th position
+  have hq' : addPos (unravelI shape i) k' = unravelI shape j := by
+    apply C14.ravelI_inj shape _ _ hin hq
+    rw [ravelI_unravelI shape j hj, ← hc]
+    exact ht
+  obtain ⟨kh1, hkh1, hk1⟩ := hss.star kh hkh k' hb
+  obtain ⟨kh2, hkh2, hk2⟩ := hss.neg kh1 hkh1
+  refine ⟨kh2, hkh2, ?_⟩
+  unfold tgt target
+  rw [hk2, hk1, ← hq', C14.addPos_negPos _ k' (by rw [C14.between_length k' kh.1 hb, hkl]),
+    C14.clampPos_inside _ _ hp, ravelI_unravelI shape i hi]
+
+/-- F12 in the model's coordinates: symmetric star-shaped elements are scatter/gather symmetric on
+    every image shape -/
+theorem scatterGatherSym_of_symStar (shape : List Nat) (sup : List (List Int × Int))
+    (hs : ∀ d ∈ shape, 0 < d) (hlen : ∀ kh ∈ sup, kh.1.length = shape.length) (hss : SymStar sup) :
+    ScatterGatherSym shape sup :=
+  fun i j hi hj => ⟨sg_dir shape sup hs hlen hss i j hi hj, sg_dir shape sup hs hlen hss j i hj hi⟩
 
 theorem bool_scalar (sup : List (List Int × Int)) (hsup : ∀ kh ∈ sup, kh.2 ≠ 0) (kh : List Int × Int)
     (hkh : kh ∈ sup) (a : Int) (ha : a = 0 ∨ a = 1) :
